@@ -1120,6 +1120,147 @@ def oracle_C13(run):
 
 
 # ---------------------------------------------------------------------------
+# C14  outbound header blocks are normalised and conformant (independent HPACK decode of the output)
+# ---------------------------------------------------------------------------
+def _out_blocks(fr):
+    """[(first frame type, sid, block)] of the header blocks in a frame list"""
+    blocks, cur = [], None
+    for f in fr:
+        if f['type'] in (wire.HEADERS, wire.PUSH_PROMISE):
+            cur = [f['type'], f['sid'], f['block']]
+            if f['end_headers']:
+                blocks.append(tuple(cur))
+                cur = None
+        elif f['type'] == wire.CONTINUATION and cur is not None:
+            cur[2] += f['block']
+            if f['end_headers']:
+                blocks.append(tuple(cur))
+                cur = None
+    return blocks
+
+
+def oracle_C14(run):
+    """every header block found in a connection's output is decoded by an independent hpack.Decoder (one per connection,
+    fed in order) and held to the rules its configuration promises: with normalize_outbound_headers the per-field rules
+    (lowercase, trimmed, no connection-specific field, sensitive fields never-indexed) and equality with the
+    independently normalised argument list; with validate_outbound_headers the block rules for the block's type.  A
+    header-carrying call whose (normalised) list breaks a block rule must have been refused with ProtocolError when
+    validation is on."""
+    import hpack
+    import rulebook
+    from hpack.struct import NeverIndexedHeaderTuple
+    out = []
+    client = roles(run)
+    cfgs, decs, taint = {}, {}, set()
+    final_sent = set()          # (conn, sid) whose final (non-1xx) response / request headers have been sent
+    for i, (op, ol, ml, obs) in enumerate(run.log):
+        if op['op'] == 'new':
+            cfgs[op['c']] = op
+            continue
+        if obs is None:
+            continue
+        c = conn_of(op) if is_recv(op) else op.get('c', 0)
+        if c in taint:
+            continue
+        cfg = cfgs.get(c) or {}
+        vo, no = bool(cfg.get('vo', 1)), bool(cfg.get('no', 1))
+        app = obs.get('appended')
+        if app is None:
+            taint.add(c)
+            continue
+        fr = frames_of(app[24:] if app.startswith(wire.PREFACE) else app)
+        if fr is None:
+            taint.add(c)
+            continue
+        D = decs.get(c)
+        if D is None:
+            D = decs[c] = hpack.Decoder()
+            D.max_header_list_size = 2**30
+            D.max_allowed_table_size = 2**30
+        blocks = _out_blocks(fr)
+        o = op['op']
+        r = res(obs)
+        hdr_call = o in ('send_headers', 'push_stream')
+        ill = hdr_call and _ill_typed_headers(op)
+        args = None
+        if hdr_call and not ill:
+            args = [(h[0], h[1]) for h in op['headers']]
+        # block kind
+        kind = None
+        if o == 'push_stream':
+            kind = 'push'
+        elif o == 'send_headers':
+            sid = op['sid']
+            if client[c]:
+                kind = 'trailers' if (c, sid) in final_sent else 'request'
+            else:
+                first_status = None
+                if args:
+                    for n, v in args:
+                        nb = rulebook.to_bytes(n)
+                        if not nb.startswith(b':'):
+                            break
+                        if nb == b':status':
+                            first_status = rulebook.to_bytes(v)
+                            break
+                if (c, sid) in final_sent:
+                    kind = 'trailers'
+                elif first_status is not None and first_status[:1] == b'1':
+                    kind = 'informational'
+                else:
+                    kind = 'response'
+        for (ft, bsid, b) in blocks:
+            try:
+                got = D.decode(b, raw=True)
+            except Exception as e:
+                taint.add(c)          # C13's business
+                break
+            hs = [(bytes(h[0]), bytes(h[1])) for h in got]
+            if not hdr_call or len(blocks) != 1:
+                continue
+            if no:
+                for (n, v), h in zip(hs, got):
+                    p = rulebook.field_problem_out(n, v)
+                    if p:
+                        out.append(fail('emitted-field-not-normalised', i, rule=p, field=repr((n, v))[:120]))
+                        break
+                    # (an empty value is the static-table entry itself: it goes out as an index, there is no literal to protect)
+                    if (n in rulebook.SENSITIVE or (n == b'cookie' and len(v) < 20)) and v != b'' \
+                            and not isinstance(h, NeverIndexedHeaderTuple):
+                        out.append(fail('sensitive-field-not-never-indexed', i, field=repr((n, v))[:120]))
+                        break
+                else:
+                    if args is not None:
+                        want = [(n, v) for n, v, _ in rulebook.normalise_out(args)]
+                        if hs != want:
+                            out.append(fail('emitted-block-is-not-the-normalised-argument', i, got=repr(hs)[:200], want=repr(want)[:200]))
+            elif args is not None:
+                want = [(rulebook.to_bytes(n), rulebook.to_bytes(v)) for n, v in args]
+                if hs != want:
+                    out.append(fail('emitted-block-is-not-the-argument', i, got=repr(hs)[:200], want=repr(want)[:200]))
+            if vo and kind:
+                p = rulebook.block_problem_out(hs, kind)
+                if p:
+                    out.append(fail('emitted-block-breaks-a-rule', i, kind=kind, rule=p, block=repr(hs)[:300]))
+        if c in taint:
+            continue
+        # refusal of what normalisation cannot repair (directed histories say that the stream state admits the call)
+        a = op.get('expect')
+        if a and hdr_call and vo and args is not None:
+            lst = [(n, v) for n, v, _ in rulebook.normalise_out(args)] if no else [(rulebook.to_bytes(n), rulebook.to_bytes(v)) for n, v in args]
+            p = rulebook.block_problem_out(lst, a['kind'])
+            if p and r[0] == 'ok':
+                if not any(f['idx'] == i for f in out):
+                    out.append(fail('unrepairable-block-not-refused', i, kind=a['kind'], rule=p))
+            elif p and not (r[0] == 'exc' and is_protocol_error(obs)):
+                out.append(fail('refusal-is-not-ProtocolError', i, kind=a['kind'], rule=p, res=obs['res']))
+            # (a refusal of a repairable list is not a violation of C14: the property promises nothing about acceptance)
+        if o == 'send_headers' and r[0] == 'ok' and kind in ('request', 'response'):
+            final_sent.add((c, op['sid']))
+    return out
+
+
+# ---------------------------------------------------------------------------
 # C21  chunking independence (evaluated by the dedicated runner in checklib)
 # ---------------------------------------------------------------------------
 
@@ -1771,6 +1912,6 @@ def oracle_C25(run):
 
 ORACLES = {
     'C02': oracle_C02, 'C03': oracle_C03, 'C04': oracle_C04, 'C05': oracle_C05, 'C07': oracle_C07, 'C08': oracle_C08,
-    'C09': oracle_C09, 'C10': oracle_C10, 'C12': oracle_C12, 'C15': oracle_C15, 'C16': oracle_C16, 'C13': oracle_C13, 'C17': oracle_C17, 'C18': oracle_C18,
+    'C09': oracle_C09, 'C10': oracle_C10, 'C12': oracle_C12, 'C14': oracle_C14, 'C15': oracle_C15, 'C16': oracle_C16, 'C13': oracle_C13, 'C17': oracle_C17, 'C18': oracle_C18,
     'C19': oracle_C19, 'C21': oracle_C21, 'C22': oracle_C22, 'C24': oracle_C24, 'C25': oracle_C25, 'C26': oracle_C26, 'C27': oracle_C27, 'C29': oracle_C29,
 }
